@@ -71,7 +71,7 @@ CLAIMED["C11"] = dict(
 
 CLAIMED["C07"] = dict(
     engine="P", technique="grammar-based program generation (Hypothesis) with static translation validation: parsed Dart/Kotlin native declarations vs a reference C-ABI model",
-    text="Generated programs in the Dart and Kotlin profiles; every @ffi.Native signature, ffi.Struct/Union class, JNA interface function, Structure/Union class (incl. getFieldOrder) and JNA callback interface (Runner_*.invoke) is parsed, resolved recursively and compared with the model's C ABI of the function / repr(C) struct: arity, order, width, signedness, float kind, pointer vs by-value, record shapes. Exploration; declarations are validated as text, not executed.",
+    text="Generated programs in the Dart and Kotlin profiles; every @ffi.Native signature, ffi.Struct/Union class, JNA interface function, Structure/Union class (incl. getFieldOrder) JNA callback interface and bridged-trait vtable / method interface (Runner_*.invoke) is parsed, resolved recursively and compared with the model's C ABI of the function / repr(C) struct: arity, order, width, signedness, float kind, pointer vs by-value, record shapes. Exploration; declarations are validated as text, not executed.",
     note="Trusted: the two text parsers, the reference ABI model (validated against compiled code by C01), the fixed table of accepted scalar spellings. No Dart/Kotlin toolchain exists in the sandbox.",
     ref="DESIGN.md §2 C07")
 
